@@ -139,6 +139,10 @@ def generate(seed, tier):
         steps.append({"src_fmt": fmts[i], "dest_fmt": fmts[i + 1], "src_enc": encs[i],
                       "dest_enc": encs[i + 1], "sopts": sopts if i == 0 else
                       ({"quiet": True} if rng.random() < 0.5 else {}), "dopts": d})
+    for st_ in steps:
+        if st_["src_fmt"] == "tigerxml" and rng.random() < 0.5:
+            # "The encoding argument is ignored here": the XML declaration decides
+            st_["src_enc_arg"] = rng.choice(["utf-8", "latin-1", "utf-16", "utf8"])
     if dirmode:
         steps = steps[:1]
     files = []
@@ -156,7 +160,8 @@ def generate(seed, tier):
 # ---------------------------------------------------------------------------------- execute
 def argv_for(step, src, dest):
     a = ["transform", src, dest, "--src-format", step["src_fmt"], "--dest-format",
-         step["dest_fmt"], "--src-enc", step["src_enc"], "--dest-enc", step["dest_enc"]]
+         step["dest_fmt"], "--src-enc", step.get("src_enc_arg", step["src_enc"]),
+         "--dest-enc", step["dest_enc"]]
     if step["sopts"]:
         a += ["--src-opts"] + optlist(step["sopts"])
     if step["dopts"]:
